@@ -12,7 +12,7 @@ ASSUMPTIONS = ["garbage bytes are not a transport failure in the statement's sen
                "the scenario is not continued on the broken session after the first step that raised",
                "lock state is read from the objects' Lock attributes (_transport_lock, _store_lock, _local_id_lock)"]
 SHARDS = {"quick": 16, "thorough": 16}
-TIME_BUDGET = {"quick": 90, "thorough": 900}
+TIME_BUDGET = {"quick": 300, "thorough": 1800}
 FLOORS = {"quick": {"faults_injected": 2000, "recoveries_checked": 2000, "lock_checks": 6000, "distinct": 2000}, "thorough": {"faults_injected": 30000, "recoveries_checked": 30000}}
 EXHAUSTIVE = {"quick": True, "thorough": True}
 
